@@ -72,8 +72,12 @@ func solve(script string, file string, timeout time.Duration, needModel bool) So
 		solver, status, out string
 		secs                float64
 	}
-	ch := make(chan one, len(solvers))
-	for _, sp := range solvers {
+	use := solvers
+	if needModel {
+		use = solvers[:2] // vacuity canaries: the two z3 versions are enough to expose a contradiction
+	}
+	ch := make(chan one, len(use))
+	for _, sp := range use {
 		sp := sp
 		go func() {
 			solverSem <- struct{}{}
@@ -113,7 +117,7 @@ func solve(script string, file string, timeout time.Duration, needModel bool) So
 	res := SolveResult{Status: "unknown", All: map[string]string{}}
 	var satOut one
 	haveSat := false
-	for i := 0; i < len(solvers); i++ {
+	for i := 0; i < len(use); i++ {
 		o := <-ch
 		res.All[o.solver] = o.status
 		if o.status == "unsat" && res.Status != "unsat" {
